@@ -27,6 +27,7 @@ func init() {
 }
 
 var fileMu sync.Mutex
+var badKind int
 
 // the served mapping of a lease file, computed by the harness: last occurrence wins;
 // ok=false when any line is malformed
@@ -139,10 +140,8 @@ func genLeaseFile(c *Ctx, v6 bool, macs [][]byte, bad bool) string {
 			wrongFam = "10.1.1.1"
 		}
 		b := []string{"02:00:00:00:00:01", "02:00:00:00:00:01 10.0.0.1 extra", "zz:00:00:00:00:01 10.0.0.1", "02:00:00:00:00:01 not-an-ip",
-			"02:00:00:00:00:01 " + wrongFam, "   ", " # indented comment", "02:00:00:00:00 10.0.0.1", "\r", "02:00:00:00:00:01 10.0.0.1"}[r.Intn(10)]
-		if strings.ContainsRune(b, ' ') {
-			b = "02:00:00:00:00:01" // (the model covers ASCII white space only)
-		}
+			"02:00:00:00:00:01 " + wrongFam, "   ", " # indented comment", "02:00:00:00:00 10.0.0.1", "\r", "02:00:00:00:00:01 10.0.0.1 10.0.0.2 10.0.0.3"}[badKind%10]
+		badKind++ // every malformation in turn
 		at := r.Intn(len(lines) + 1)
 		lines = append(lines[:at], append([]string{b}, lines[at:]...)...)
 	}
@@ -313,6 +312,19 @@ func runFile(c *Ctx) {
 				obs = append(obs, "FEventDone")
 				if t, ok := expectTable(nc, in.v6); ok {
 					served[in.v6] = t
+				}
+				if !dual {
+					// all or nothing: the table is the new mapping if the new content is well-formed, else the previous one
+					got, want := file.StaticRecords, served[in.v6]
+					same := len(got) == len(want)
+					for k, v := range want {
+						if g, ok := got[k]; !ok || !g.Equal(v) {
+							same = false
+						}
+					}
+					if !same {
+						c.vio("C10", "refresh-not-all-or-nothing", fmt.Sprintf("after a %s rewrite of the lease file the served table has %d entries, expected %d (the %s mapping)", map[bool]string{true: "malformed", false: "well-formed"}[bad], len(got), len(want), map[bool]string{true: "previous", false: "new"}[bad]), rec())
+					}
 				}
 				c.Count(fmt.Sprintf("rewrite:bad=%v", bad))
 				continue
